@@ -278,6 +278,46 @@ def r10_8(ctx, rep):
     io_stripping(ctx, rep, "R10.8")
 
 
+@SPEC.rule(
+    "R10.9",
+    "one derivative variable per state: what Generator.get_derivative remembers under a state's name (self.derivative[<x>.name()]) is "
+    "the derivative symbol it has just created for that state with the symbol constructor — never a derived object such as the "
+    "loop-indexed view der(x)[i], whose name does not identify the loop it belongs to and which is not a model variable",
+)
+def r10_9(ctx, rep):
+    R = "R10.9"
+    fn = ctx.func(GEN, "Generator.get_derivative", R)
+    site = GEN + ":Generator.get_derivative"
+    n = 0
+    for st in walk_local(fn):
+        if not (isinstance(st, ast.Assign) and isinstance(st.targets[0], ast.Subscript) and norm(st.targets[0].value) == "self.derivative"):
+            continue
+        n += 1
+        key = st.targets[0].slice
+        val = st.value
+        defs = [d.value for d in walk_local(fn) if isinstance(d, ast.Assign) and isinstance(val, ast.Name) and any(is_name(t, val.id) for t in d.targets)] if isinstance(val, ast.Name) else [val]
+        owner = norm(key.func.value) if isinstance(key, ast.Call) and isinstance(key.func, ast.Attribute) and key.func.attr == "name" else None
+        fresh = bool(defs) and all(isinstance(d, ast.Call) and (call_name(d) or "").split(".")[-1] in ("_new_mx", "sym") and "der(" in norm(d) and owner is not None
+                                   and ("%s.name()" % owner) in norm(d) for d in defs)
+        rep.ob(R, site, "`%s` stores the state's own new derivative symbol" % norm(st)[:60], fresh,
+               "the value remembered under %s is not a symbol created here as der(<that name>): later der() of the same name are answered with an object "
+               "that is no derivative variable of the model (a second, free `derivative` appears in the equations)" % norm(key))
+    if n < 1:
+        raise MechanismMissing(R, "get_derivative no longer remembers derivative symbols in self.derivative")
+
+
+@SPEC.rule(
+    "R10.10",
+    "a derivative written in a component's (initial) equations still makes a state: flatten_extends and flatten_symbols carry every "
+    "section — equations, initial equations, statements, initial statements — of every base class and sub-component into the section of "
+    "the same name; an initial equation merged into the wrong list (or dropped) leaves its der() unseen and the variable algebraic",
+)
+def r10_10(ctx, rep):
+    from ..engine import run_as
+    from .c07 import r07_1
+    run_as(r07_1, "R10.10", ctx, rep)
+
+
 # -- seeded variants ---------------------------------------------------------
 from ._mut import delete_stmt_where, replace_in_func  # noqa: E402
 
@@ -352,3 +392,20 @@ def _m7(mod):
         return False
 
     return mod if replace_in_func(mod, "StateAnnotator.exitComponentRef", edit) else None
+
+
+@SPEC.mutant("loop-indexed derivative view memoised under the indexed name", GEN, "R10.9", "own new derivative symbol")
+def _m_der_memo(mod):
+    def edit(fn):
+        for n in ast.walk(fn):
+            for f in ("body", "orelse"):
+                lst = getattr(n, f, None)
+                if isinstance(lst, list):
+                    for i, st in enumerate(lst):
+                        if isinstance(st, ast.Return) and isinstance(st.value, ast.Call) and norm(st.value.func) == "self.get_indexed_symbol":
+                            lst[i:i + 1] = [ast.Assign(targets=[ast.Name(id="_view", ctx=ast.Store())], value=st.value, lineno=0),
+                                            ast.parse("self.derivative[s.name()] = _view").body[0], ast.parse("return _view").body[0]]
+                            return True
+        return False
+
+    return mod if replace_in_func(mod, "Generator.get_derivative", edit) else None
